@@ -294,40 +294,66 @@ func checkO4(c *Ctx) {
 		if sortCall == nil {
 			continue
 		}
-		n := 0
-		eachInstr(fn, func(ins ssa.Instruction) {
-			cc := callCommon(ins)
-			if cc == nil {
-				return
-			}
-			cal := cc.StaticCallee()
-			if cal == nil || (cal.Name() != "AddChild" && cal.Name() != "AddKeyValueChild") {
-				return
-			}
-			if !sortCall.Block().Dominates(ins.Block()) {
-				return
-			}
-			n++
-			key := fmt.Sprintf("%s/%s", funcKey(fn), cal.Name())
-			bad := ""
-			dominatingConds(ins.Block(), func(cond ssa.Value, taken bool, at *ssa.BasicBlock) {
-				if !sortCall.Block().Dominates(at) || at == sortCall.Block() {
+		n := checkO4Adds(c, funcKey(fn), fn, sorted, sortCall.Block())
+		if n == 0 {
+			// the rebuild may sit in a helper that is handed the sorted array
+			eachInstr(fn, func(ins ssa.Instruction) {
+				call, ok := ins.(*ssa.Call)
+				if !ok || !sortCall.Block().Dominates(call.Block()) {
 					return
 				}
-				if dependsOnElement(cond, sorted, 0) {
-					bad = "condition at " + c.P.pos(cond.Pos()) + " reads the sorted element"
+				h := call.Call.StaticCallee()
+				if h == nil || h.Blocks == nil || !strings.HasPrefix(funcKey(h), "yqlib.") {
+					return
+				}
+				for ai, a := range call.Call.Args {
+					if sameLenBase(a, sorted) && ai < len(h.Params) {
+						n += checkO4Adds(c, funcKey(fn), h, h.Params[ai], nil)
+					}
 				}
 			})
-			if bad == "" {
-				r.Discharge("O4", key, c.P.pos(ins.Pos()), "every element of the sorted array is added (no element-dependent filter)")
-			} else {
-				r.Finding("O4", key, c.P.pos(ins.Pos()), "sorted elements are filtered while rebuilding the result: output is not a permutation of the input ("+bad+")")
-			}
-		})
+		}
 		if n == 0 {
-			r.Finding("O4", funcKey(fn)+"/no-add", c.P.pos(sortCall.Pos()), "sorted array is never added back to a result container")
+			r.Undecided("O4", funcKey(fn)+"/no-add", c.P.pos(sortCall.Pos()), "no AddChild / AddKeyValueChild of the sorted elements found after the sort, here or in a helper that is handed the sorted array: shape not recognised")
 		}
 	}
+}
+
+// checkO4Adds: the Add* calls in fn (after block `after`, when given) that rebuild
+// the result from the sorted array; returns how many were judged.
+func checkO4Adds(c *Ctx, keyFn string, fn *ssa.Function, sorted ssa.Value, after *ssa.BasicBlock) int {
+	r := c.R
+	n := 0
+	eachInstr(fn, func(ins ssa.Instruction) {
+		cc := callCommon(ins)
+		if cc == nil {
+			return
+		}
+		cal := cc.StaticCallee()
+		if cal == nil || (cal.Name() != "AddChild" && cal.Name() != "AddKeyValueChild") {
+			return
+		}
+		if after != nil && !after.Dominates(ins.Block()) {
+			return
+		}
+		n++
+		key := fmt.Sprintf("%s/%s", keyFn, cal.Name())
+		bad := ""
+		dominatingConds(ins.Block(), func(cond ssa.Value, taken bool, at *ssa.BasicBlock) {
+			if after != nil && (!after.Dominates(at) || at == after) {
+				return
+			}
+			if dependsOnElement(cond, sorted, 0) {
+				bad = "condition at " + c.P.pos(cond.Pos()) + " reads the sorted element"
+			}
+		})
+		if bad == "" {
+			r.Discharge("O4", key, c.P.pos(ins.Pos()), "every element of the sorted array is added (no element-dependent filter)")
+		} else {
+			r.Finding("O4", key, c.P.pos(ins.Pos()), "sorted elements are filtered while rebuilding the result: output is not a permutation of the input ("+bad+")")
+		}
+	})
+	return n
 }
 
 // dependsOnElement: cond is computed from an element loaded from the sorted slice.
